@@ -316,9 +316,13 @@ def run(ctx):
         label = f'{label} north={shift}'
         if long_model:
             nx_l = ds.sizes[gdims[1]]
-            first, last = polys[nx_l], polys[2 * nx_l - 1]               # first and last cell of the middle row
+            first = polys[nx_l]                                          # first cell of the middle row
             cy = (min(y for x, y in first) + max(y for x, y in first)) / 2
             x_start = (min(x for x, y in first) + max(x for x, y in first)) / 2
+            # the path ends in the last cell of the middle row that lies within 170 degrees of its start: one straight leg more
+            # than half way round the globe has no single meaning of "distance from the start" (the great circle turns back)
+            near = [k for k in range(nx_l, 2 * nx_l) if all(abs(x - x_start) < 170.0 for x, y in polys[k])]
+            last = polys[max(near, key=lambda k: abs(polys[k][0][0] - x_start))]
             xs_last = sorted({x for x, y in last})
             towards = xs_last[0] if abs(xs_last[0] - x_start) < abs(xs_last[-1] - x_start) else xs_last[-1]
             x_end = towards + (2.0 ** -15 if towards > x_start else -2.0 ** -15)       # 3e-5 degrees (a few metres) inside the last cell
@@ -409,7 +413,8 @@ def run(ctx):
                         bad = (f'pieces meeting at the same point of the path have distances {s1.end_distance} and {s2.start_distance}: '
                                f'the lengths do not add up')
                     if min(a1, b1) < min(a2, b2) and s1.start_distance > s2.start_distance + 1e-6:
-                        bad = 'a piece further along the path has a smaller start distance'
+                        bad = (f'a piece further along the path has a smaller start distance: cell {c1} at {float(min(a1, b1))} starts at '
+                               f'{s1.start_distance}, cell {c2} at {float(min(a2, b2))} starts at {s2.start_distance}')
             if bad:
                 ctx.report('property', bad, case)
                 continue
